@@ -154,6 +154,17 @@ def check_cfg(ctx, fx, cfg):
     for _k, _cf, _key in _chan.submit_closures(fx):
         if _cf is not None and _cf.get("_adt"):
             HOLDERS[_cf["_adt"]] = "a named submit object (stands for one of the two submit closures; created in the channel constructors, R05.6)"
+    # a named type standing in for one of the closures inside a strong handle (`struct ActorCall { tx, _force_tx }` implementing
+    # `CallerFn<M>`, erased into `Caller`'s `Box<dyn CallerFn<M>>`): the handle's internals, alive exactly as long as the handle
+    HANDLE_TRAIT_MODULES = ("addr::caller::", "addr::sender::")
+    handle_objects = set()
+    for key_, ent_ in fx.dyn.items():
+        if key_.startswith(tuple("dyn " + m_ for m_ in HANDLE_TRAIT_MODULES)):
+            for s_ in ent_["sources"]:
+                if s_.get("kind") == "adt" and (s_.get("def") or "").startswith(HANDLE_TRAIT_MODULES):
+                    handle_objects.add(s_["def"])
+    for ho_ in handle_objects:
+        HOLDERS.setdefault(ho_, "a named object inside a strong handle (stands for one of its closures)")
     for o in fx.owns:
         if o["kind"] != "adt":
             continue
@@ -204,6 +215,10 @@ def check_cfg(ctx, fx, cfg):
         # written as a method: its future holds a sender clone for the duration of one send (R01.3 judges it)
         rootf = fx.fn((fx.fn(d) or {}).get("root") or "") or {}
         if rootf.get("impl_trait_def") in (chan.TX_TRAIT, chan.FORCE_TRAIT) and (rootf.get("impl_self") or "").startswith("channel::"):
+            continue
+        # likewise the method body of a named object inside a strong handle (`impl CallerFn<M> for ActorCall<A>`: the future of
+        # one call holds the channel halves for the duration of that call, as the closure it replaces did)
+        if (rootf.get("impl_trait_def") or "").startswith(HANDLE_TRAIT_MODULES) and (rootf.get("impl_self") or "").split("<")[0] in handle_objects:
             continue
         # the body of an `async fn` holds what its caller handed in (and what it makes from it) for the duration of that
         # call only: the future is returned to the caller, nothing keeps it beyond the await. What is listed above and
